@@ -274,3 +274,60 @@ func Harness_C07_LongHistory() {
 	}
 	verifCover("end")
 }
+
+// an unrelated package_info block (in the file or as a .foi argument) whose
+// declarations carry, inside ANOTHER package, the unqualified names of
+// definitions the target uses: external type names, external function names
+// and type variables are local to their block
+func Harness_C07_PackageInfoNames() {
+	t := verifChoice("template", len(c07Templates))
+	tpl := c07Templates[t]
+	base := "package main\n\n"
+	for _, d := range tpl.deps {
+		base += d + "\n"
+	}
+	bg, bcode := c07Run([]string{"b.fo"}, []string{base + tpl.target})
+	verifAssert(bcode == 0, "the minimal package is accepted: "+verifStdout())
+	var want []string
+	for _, m := range tpl.marks {
+		w, ok := c07Extract(bg[0], m)
+		verifAssert(ok, "target found in the baseline output")
+		want = append(want, w)
+	}
+	tys := [][]string{{"Rec", "Uni"}, {"Pt", "Pt"}, {"Leaf", "Leaf"}}[t]
+	fns := [][]string{{"helper", "width"}, {"idf", "cst"}, {"one", "two"}}[t]
+	var pi string
+	switch verifChoice("kind", 3) {
+	case 0: // external types
+		pi = "package_info ext =\n  type " + tys[0] + "\n  let mk" + tys[0] + ": string->" + tys[0] + "\n"
+		if tys[1] != tys[0] {
+			pi += "  type " + tys[1] + "\n"
+		}
+	case 1: // external functions
+		pi = "package_info ext =\n  let " + fns[0] + ": string->string->string\n  let " + fns[1] + ": string->string\n"
+	default: // type variables
+		pi = "package_info ext =\n  let Conv<" + tys[0] + ">: any->" + tys[0] + "\n  let Conv2<" + tys[1] + ", " + fns[0] + ">: " + tys[1] + "->" + fns[0] + "\n"
+	}
+	var files, contents []string
+	fileOfTarget := 0
+	switch verifChoice("place", 4) {
+	case 0: // in the file, between the dependencies and the target
+		files, contents = []string{"v0.fo"}, []string{base + pi + "\n" + tpl.target}
+	case 1: // in the file, after the target
+		files, contents = []string{"v0.fo"}, []string{base + tpl.target + "\n" + pi}
+	case 2: // a .foi argument between two .fo files
+		files, contents = []string{"v0.fo", "p.foi", "v1.fo"}, []string{base, pi, "package main\n\n" + tpl.target}
+		fileOfTarget = 1
+	default: // an earlier .fo file ends with the block
+		files, contents = []string{"v0.fo", "v1.fo"}, []string{base + pi, "package main\n\n" + tpl.target}
+		fileOfTarget = 1
+	}
+	vg, vcode := c07Run(files, contents)
+	verifAssert(vcode == 0, "the variant package is accepted: "+verifStdout())
+	for k, m := range tpl.marks {
+		got, ok := c07Extract(vg[fileOfTarget], m)
+		verifAssert(ok, "target found in the variant output")
+		verifAssert(got == want[k], "the target's Go text does not depend on names declared inside an unrelated package_info block")
+	}
+	verifCover("end")
+}
